@@ -34,30 +34,111 @@ import (
 
 const maxInlineRounds = 40
 
-// loadLight type-checks only the module's own packages (dependencies from export data).
+// lightBase is the full load (all dependencies type-checked from source) that the light loads below borrow their
+// dependencies and file lists from; set by Load.
+var lightBase map[string]*packages.Package
+
+// loadLight parses and type-checks only the module's own packages, with the overlay's contents, against the
+// dependencies of the full load.  Nothing is run: `go list -export` would compile every variant of the module into the
+// user's build cache (about 12 MB per round), and the file lists do not change — the normaliser only rewrites files.
 func loadLight(repo string, cfg BuildConfig, overlay map[string][]byte) (map[string]*packages.Package, error) {
-	pc := &packages.Config{
-		Mode:    packages.NeedName | packages.NeedFiles | packages.NeedCompiledGoFiles | packages.NeedImports | packages.NeedTypes | packages.NeedTypesSizes | packages.NeedSyntax | packages.NeedTypesInfo,
-		Dir:     repo,
-		Env:     loadEnv(cfg),
-		Overlay: overlay,
+	base := lightBase
+	if base == nil {
+		return nil, fmt.Errorf("no full load to borrow dependencies from")
 	}
-	if cfg.Tags != "" {
-		pc.BuildFlags = []string{"-tags=" + cfg.Tags}
-	}
-	pkgs, err := packages.Load(pc, "./...")
-	if err != nil {
-		return nil, err
-	}
-	out := map[string]*packages.Package{}
-	for _, pk := range pkgs {
-		if len(pk.Errors) > 0 && strings.HasPrefix(pk.PkgPath, pkgSftp) && !strings.Contains(pk.PkgPath, "/examples/") {
-			return nil, fmt.Errorf("%s: %v", pk.PkgPath, pk.Errors[0])
+	var mod []*packages.Package
+	for path, pk := range base {
+		if path == pkgSftp || strings.HasPrefix(path, pkgSftp+"/") {
+			mod = append(mod, pk)
 		}
-		out[pk.PkgPath] = pk
+	}
+	sort.Slice(mod, func(i, j int) bool { return mod[i].PkgPath < mod[j].PkgPath })
+	out := map[string]*packages.Package{}
+	fset := token.NewFileSet()
+	var check func(pk *packages.Package, depth int) (*packages.Package, error)
+	check = func(pk *packages.Package, depth int) (*packages.Package, error) {
+		if np, ok := out[pk.PkgPath]; ok {
+			if np == nil {
+				return nil, fmt.Errorf("import cycle through %s", pk.PkgPath)
+			}
+			return np, nil
+		}
+		out[pk.PkgPath] = nil
+		np := &packages.Package{ID: pk.ID, Name: pk.Name, PkgPath: pk.PkgPath, GoFiles: pk.GoFiles, CompiledGoFiles: pk.CompiledGoFiles,
+			Fset: fset, TypesSizes: pk.TypesSizes, Module: pk.Module, Imports: map[string]*packages.Package{}}
+		for ipath, ip := range pk.Imports {
+			if ip.PkgPath == pkgSftp || strings.HasPrefix(ip.PkgPath, pkgSftp+"/") {
+				d, err := check(ip, depth+1)
+				if err != nil {
+					return nil, err
+				}
+				np.Imports[ipath] = d
+			} else {
+				np.Imports[ipath] = ip
+			}
+		}
+		var firstErr error
+		for _, name := range pk.CompiledGoFiles {
+			var src any
+			if b, ok := overlay[name]; ok {
+				src = b
+			}
+			f, err := parser.ParseFile(fset, name, src, parser.AllErrors|parser.ParseComments)
+			if err != nil && firstErr == nil {
+				firstErr = err
+			}
+			if f != nil {
+				np.Syntax = append(np.Syntax, f)
+			}
+		}
+		np.TypesInfo = &types.Info{
+			Types: map[ast.Expr]types.TypeAndValue{}, Defs: map[*ast.Ident]types.Object{}, Uses: map[*ast.Ident]types.Object{},
+			Implicits: map[ast.Node]types.Object{}, Instances: map[*ast.Ident]types.Instance{}, Scopes: map[ast.Node]*types.Scope{},
+			Selections: map[*ast.SelectorExpr]*types.Selection{}, FileVersions: map[*ast.File]string{},
+		}
+		tc := &types.Config{
+			Importer: importerFunc(func(path string) (*types.Package, error) {
+				if path == "unsafe" {
+					return types.Unsafe, nil
+				}
+				ip := np.Imports[path]
+				if ip == nil || ip.Types == nil {
+					return nil, fmt.Errorf("no package for import %q", path)
+				}
+				return ip.Types, nil
+			}),
+			Sizes: pk.TypesSizes,
+			Error: func(err error) {
+				if firstErr == nil {
+					firstErr = err
+				}
+			},
+		}
+		if pk.Module != nil && pk.Module.GoVersion != "" {
+			tc.GoVersion = "go" + pk.Module.GoVersion
+		}
+		np.Types = types.NewPackage(pk.PkgPath, pk.Name)
+		types.NewChecker(tc, fset, np.Types, np.TypesInfo).Files(np.Syntax)
+		if firstErr != nil {
+			np.Errors = append(np.Errors, packages.Error{Msg: firstErr.Error(), Kind: packages.TypeError})
+			if !strings.Contains(pk.PkgPath, "/examples/") {
+				return nil, fmt.Errorf("%s: %v", pk.PkgPath, firstErr)
+			}
+		}
+		out[pk.PkgPath] = np
+		return np, nil
+	}
+	for _, pk := range mod {
+		if _, err := check(pk, 0); err != nil {
+			return nil, err
+		}
 	}
 	return out, nil
 }
+
+type importerFunc func(path string) (*types.Package, error)
+
+func (f importerFunc) Import(path string) (*types.Package, error) { return f(path) }
 
 type freshFunc struct {
 	pkg  *packages.Package
